@@ -50,6 +50,10 @@ func genC11(t *rapid.T) snapCase {
 		c.Picks = append(c.Picks, rapid.IntRange(0, 9999).Draw(t, "pick"))
 	}
 	c.Ops2 = genOps(t, 14, map[int]int{opJoin: 4, opLeave: 3, opFailed: 3, opUser: 2, opQuery: 2, opWitness: 2, opTick: 1, opAdvance: 1})
+	c.Legacy = rapid.SampledFrom([]int{0, 0, 1, 2}).Draw(t, "legacy")
+	if c.Legacy > 0 && c.MinCompact < 400 {
+		c.MinCompact = 1000 // give the skipped lines a while before the first compaction rewrites the file
+	}
 	return c
 }
 
@@ -61,6 +65,14 @@ func bodyC11(c snapCase, x *vkit.Ctx) {
 		return
 	}
 	defer r.cleanup()
+	if c.Legacy > 0 {
+		legacy := "coordinate: {\"Vec\":[0.01,0.02,0,0,0,0,0,0],\"Error\":1.5,\"Adjustment\":0,\"Height\":1e-05}\n"
+		if c.Legacy > 1 {
+			legacy += "some-future-record: 42\n"
+		}
+		r.fs.load(map[string]string{r.path: legacy})
+		x.Label("file-starts-with-lines-replay-skips")
+	}
 	r.fs.capture = true
 	r.fs.tornPct = c.TornPct
 	r.fs.armed = true
